@@ -232,6 +232,16 @@ def _load_function(obj_dict: dict[str, Any]) -> Function:
         endlineno=obj_dict.get("endlineno"),
         docstring=_load_docstring(obj_dict),
     )
+    # Objects defined in the body of a function are dumped as its members (the visitor walks `__init__` methods).
+    # YORE: Bump 2: Replace line with `members = obj_dict.get("members", {}).values()`.
+    members = obj_dict.get("members", [])
+    # YORE: Bump 2: Remove block.
+    if isinstance(members, dict):
+        members = members.values()
+
+    for function_member in members:
+        function.set_member(function_member.name, function_member)
+        _attach_parent_to_exprs(function_member, function)  # type: ignore[arg-type]
     function.labels |= set(obj_dict.get("labels", ()))
     return function
 
